@@ -149,6 +149,11 @@ func c05mid(exact *big.Float, f, lo, hi float64) bool {
 	return false
 }
 
+var (
+	c05lowsCore = []uint64{0, 1<<28 - 1, 1 << 28, 1<<28 + 1}
+	c05lowsFull = []uint64{0, 1, 1<<28 - 1, 1 << 28, 1<<28 + 1, 1<<29 - 1}
+)
+
 var c05RangeOps = []string{"Fneg32", "F32to64", "F32toint32", "F32toint64", "F32touint64", "Fint32to32", "Fint32to64"}
 
 func c05Exec(ctx *vk.Ctx, c c05Case) error {
@@ -174,11 +179,17 @@ func c05Exec(ctx *vk.Ctx, c c05Case) error {
 					return fail(o.Name, p, 0, bad)
 				}
 			}
-			// narrowing at this float32's position: the widened value with the 29 discarded bits set to
-			// nothing, one, just below half, half, just above half, all ones.
+			// Every pattern: narrowing at this float32's position with the 29 discarded bits at exactly half
+			// and one either side of it, self-comparison, and one 64-bit integer carrying the pattern on top.
+			// Patterns within 512 of a multiple of 2^20 (the quick tier's sample) get the wider variant list.
+			full := (uint32(p)+512)&(1<<20-1) < 1024
 			w := math.Float64bits(float64(math.Float32frombits(uint32(p))))
 			if c05cls64(w)&(c05fNaN|c05fInf) == 0 {
-				for _, low := range []uint64{0, 1, 1<<28 - 1, 1 << 28, 1<<28 + 1, 1<<29 - 1} {
+				lows := c05lowsCore
+				if full {
+					lows = c05lowsFull
+				}
+				for _, low := range lows {
 					fl, bad := f64to32.Fn(w|low, 0)
 					t.add(fl)
 					if bad != "" {
@@ -186,8 +197,24 @@ func c05Exec(ctx *vk.Ctx, c c05Case) error {
 					}
 				}
 			}
+			n0 := p<<32 | p*0x9E3779B9&0xffffffff
+			for _, o := range []c05OpInfo{i64to32, u64to32} {
+				fl, bad := o.Fn(n0, 0)
+				t.add(fl)
+				if bad != "" {
+					return fail(o.Name, n0, 0, bad)
+				}
+			}
+			fl, bad := cmp32.Fn(p, p)
+			t.add(fl)
+			if bad != "" {
+				return fail("cmp32", p, p, bad)
+			}
+			if !full {
+				continue
+			}
 			// 64-bit integers carrying this pattern in their upper half (rounding to 24/53 bits happens below it)
-			for _, n := range []uint64{p<<32 | p*0x9E3779B9&0xffffffff, p<<31 | 1, p << 29, p<<32 | 0x80000000, p<<32 | 0x7fffffff} {
+			for _, n := range []uint64{n0, p<<31 | 1, p << 29, p<<32 | 0x80000000, p<<32 | 0x7fffffff} {
 				for _, o := range []c05OpInfo{i64to32, u64to32, i64to64, u64to64} {
 					fl, bad := o.Fn(n, 0)
 					t.add(fl)
@@ -196,7 +223,7 @@ func c05Exec(ctx *vk.Ctx, c c05Case) error {
 					}
 				}
 			}
-			for _, q := range []uint64{p, p ^ 1<<31, uint64(uint32(p) + 1)} {
+			for _, q := range []uint64{p ^ 1<<31, uint64(uint32(p) + 1)} {
 				fl, bad := cmp32.Fn(p, q)
 				t.add(fl)
 				if bad != "" {
@@ -440,7 +467,7 @@ func TestC05_Cross(t *testing.T) {
 // primitive: all 2^32 of them in the thorough tier, the 1024 patterns around
 // every multiple of 2^20 in the quick tier.
 func TestC05_Unary32(t *testing.T) {
-	r := vk.Open(t, "C05", "TestC05_Unary32", "enumeration over 32-bit patterns p (thorough: all 2^32; quick: 512 on either side of every multiple of 2^20): Fneg32, F32to64, F32toint32/64, F32touint64 (in range), Fint32to32/64 of p, F64to32 of the widened value with the discarded bits at 0/1/half-1/half/half+1/all-ones, Fint64/Fuint64 to 32/64 of five 64-bit integers carrying p in their upper bits, and the five float32 comparisons of p with itself, its negation and its successor; one case = a run of consecutive patterns")
+	r := vk.Open(t, "C05", "TestC05_Unary32", "enumeration over 32-bit patterns p (thorough: all 2^32; quick: 512 on either side of every multiple of 2^20). Every p: Fneg32, F32to64, F32toint32/64, F32touint64 (in range), Fint32to32/64 of p, F64to32 of the widened value with the discarded bits at 0/half-1/half/half+1, Fint64to32/Fuint64to32 of a 64-bit integer carrying p on top, the float32 comparisons of p with itself. The quick-tier sample additionally: discarded bits 1/all-ones, Fint64/Fuint64 to 32/64 of five integers carrying p, comparisons with the negation and the successor. One case = a run of consecutive patterns")
 	defer r.Close()
 	if vk.Replaying() {
 		t.Skip()
